@@ -1,4 +1,5 @@
 import DVP.Lemmas.Brent
+import DVP.Lemmas.Consts
 /-!
 # C14 — bracketing root finders return certified roots
 
@@ -216,5 +217,10 @@ theorem lane_sign_change_success (f : ℚ → ℚ) (lo hi tol eps : ℚ) (maxIte
 the exact root with success -/
 example : (brentsroot (fun x : ℚ => 3 * x - 1) 0 1 (1/1000) (1/2^50) 1000000).success = true ∧
     (brentsroot (fun x : ℚ => 3 * x - 1) 0 1 (1/1000) (1/2^50) 1000000).root = 1/3 := by decide +kernel
+
+/-- the iteration cap of the Brent models is the one in the source text of both solvers (regenerated `DV.Gen.Consts`) -/
+theorem brent_cap_is_the_sources (f : Rat → Rat) (lo hi tol eps inf : Rat) :
+    DV.Brent.brentsroot f lo hi tol eps inf = DV.Brent.brentsroot f lo hi tol eps inf DV.Gen.Consts.brentMaxIter ∧
+    DV.Brent.lane f lo hi tol eps = DV.Brent.lane f lo hi tol eps DV.Gen.Consts.brentMaxIter := DVP.Consts.brent_cap f lo hi tol eps inf
 
 end DVP.C14
